@@ -278,7 +278,7 @@ func (c *effectCtx) instrWrite(in ssa.Instruction) (ssa.Value, string) {
 				// overwrite elements of the shared backing array
 				if fa := reslicedOwnedField(x.Call.Args[0]); fa != nil {
 					if o, f := ownerOfFieldAddr(fa); o != "" && c.ownsField(o, f) {
-						return fa, "append into a re-slice of " + o + "." + f + " (shares its backing array)"
+						return fa, "append to (a re-slice of) " + o + "." + f + " without copying it first (shares its backing array)"
 					}
 				}
 			}
@@ -310,6 +310,13 @@ func reslicedOwnedField(v ssa.Value) ssa.Value {
 			if ld, ok := x.X.(*ssa.UnOp); ok && ld.Op == token.MUL {
 				if _, isFA := ld.X.(*ssa.FieldAddr); isFA {
 					res = ld.X
+				}
+			}
+		case *ssa.UnOp:
+			// the field's slice itself, not copied: an append writes into its spare capacity
+			if x.Op == token.MUL {
+				if _, isFA := x.X.(*ssa.FieldAddr); isFA {
+					res = x.X
 				}
 			}
 		}
@@ -742,6 +749,82 @@ func checkC10(p *core.Program, r *core.Report) {
 	// ------------------------------------------------------------------ R5 the resume limit
 	r.Rule("R5", "'resume limit reached' ends the session as failed: the limit test and the wait counter it relies on (every kind of wait counts) are obligations here too (imported from C05/R3)")
 	importObligations(p, r, "C05", map[string]bool{"R3": true}, "R5", "the resume limit does not end the session as the property prescribes")
+
+	// ------------------------------------------------------------------ R6 a run whose flow is gone
+	r.Rule("R6", "a run restored without its flow has a nil Flow(): in flows/engine and flows/runs every method invoked on the result of Run.Flow() (or on the run's flow field) is controlled by a nil test of that same expression, or is listed as running only while the run executes (which starts from a node found through its flow)")
+	c10R6(p, r)
+}
+
+// c10FlowDerefAllowed: dereferences of a run's flow that need the run to be executing. key as reported.
+var c10FlowDerefAllowed = map[string]string{
+	"(*flows/runs.run).getText/Language":                  "text lookup for an action or router of the node being executed",
+	"(*flows/runs.run).getText/Language#2":                "text lookup for an action or router of the node being executed",
+	"(*flows/runs.run).getText/Localization":              "text lookup for an action or router of the node being executed",
+	"(*flows/runs.run).getLanguages/Language":             "language preference for a lookup made while executing a node",
+	"flows/runs.newRunSummaryFromRun/Reference":           "Snapshot() is only taken by the start_session action of the run being executed",
+	"(*flows/engine.session).continueUntilWait/GetNode":   "segment logging under exit != nil: the exit was returned by visitNode (the run executes) or by findResumeExit, which the loop calls only on the Flow() != nil branch",
+	"(*flows/engine.session).continueUntilWait/GetNode#2": "destination lookup: a destination exists only after an exit was taken (see above) or a flow was just pushed (a new run created from a loaded flow)",
+	"(*flows/engine.session).continueUntilWait/UUID":      "error text on the same path as the destination lookup",
+}
+
+func c10R6(p *core.Program, r *core.Report) {
+	flowField := p.FieldOf("flows/runs", "run", "flow")
+	n := 0
+	per := map[string]int{}
+	for _, fn := range p.ModuleFunctions() {
+		rel := core.RelPkg(core.FuncPkgPath(fn))
+		if (rel != "flows/engine" && rel != "flows/runs") || p.IsTestFile(fn.Pos()) {
+			continue
+		}
+		for _, cs := range core.Calls(fn, false) {
+			com := cs.Common()
+			if !com.IsInvoke() {
+				continue
+			}
+			recv := core.StripConv(com.Value)
+			isFlow := false
+			switch x := recv.(type) {
+			case *ssa.Call:
+				if o := core.CalleeObj(&x.Call); o != nil && o.Name() == "Flow" && len(x.Call.Args)+btoi(x.Call.IsInvoke()) == 1 {
+					switch core.ObjName(o) {
+					case "flows.Run.Flow", "flows/runs.run.Flow", "flows.RunSummary.Flow":
+						isFlow = true
+					}
+				}
+			case *ssa.UnOp:
+				if flowField != nil && core.FieldAddrVar(x.X) == flowField {
+					isFlow = true
+				}
+			}
+			if !isFlow {
+				continue
+			}
+			n++
+			k := core.FuncName(rootFn(fn)) + "/" + com.Method.Name()
+			per[k]++
+			key := k
+			if per[k] > 1 {
+				key = fmt.Sprintf("%s#%d", k, per[k])
+			}
+			if g := xNilGuard(cs.Instr.Block(), recv); g != "" {
+				r.OK("R6", key, p.Pos(cs.Pos()), "guarded: "+g)
+				continue
+			}
+			if reason, ok := c10FlowDerefAllowed[key]; ok {
+				r.OK("R6", key, p.Pos(cs.Pos()), "listed: "+reason)
+				continue
+			}
+			r.Bad("R6", key, p.Pos(cs.Pos()), fmt.Sprintf("%s() is called on %s without a nil test: for a run restored against assets from which its flow was deleted this is a nil interface call — the resume panics instead of ending the session as failed", com.Method.Name(), canonShort(recv)))
+		}
+	}
+	r.Require("run_flow_dereferences", n, 8)
+}
+
+func btoi(b bool) int {
+	if b {
+		return 1
+	}
+	return 0
 }
 
 func rejectionCode(ev ssa.Value, newErr *ssa.Function) string {
